@@ -123,7 +123,16 @@ def _call(spec, gpath, lpath):
         from kappadata.copying.folder import copy_folder_from_global_to_local as fn
     else:
         from kappadata.copying.image_folder import copy_imagefolder_from_global_to_local as fn
-    return fn(global_path=gpath, local_path=lpath, relative_path=spec["relative"], num_workers=spec.get("workers", 0))
+    rel = spec["relative"]
+    form = spec.get("path_form") or "path"
+    if form == "str":
+        gpath, lpath = str(gpath), str(lpath)  # both path arguments are documented as str or Path
+    elif form == "rel_path" and rel is not None:
+        rel = Path(rel)
+    if spec.get("call") == "positional":
+        # documented order: global_path, local_path, relative_path, num_workers
+        return fn(gpath, lpath, rel, spec.get("workers", 0))
+    return fn(global_path=gpath, local_path=lpath, relative_path=rel, num_workers=spec.get("workers", 0))
 
 
 def run_attempt(spec, gpath, lpath, kill_at=None):
@@ -410,6 +419,7 @@ def scenario_s(draw, max_crashes=3):
     return {"fmt": fmt, "tree": draw(tree_s()), "relative": draw(st.sampled_from([None, "sub", "sub/deep"])),
             "pre": draw(st.sampled_from(["absent", "absent", "parent", "user", "user_empty"])), "fn": draw(st.sampled_from(["folder", "imagefolder"])),
             "readme": draw(st.sampled_from([0, 1, 2, 2])), "workers": draw(st.sampled_from([0, 1])),
+            "path_form": draw(st.sampled_from(["path", "str", "rel_path"])), "call": draw(st.sampled_from(["keyword", "keyword", "positional"])),
             "crashes": draw(st.lists(st.floats(0, 0.999).map(lambda f: round(f, 3)), min_size=min(max_crashes, draw(st.sampled_from([0, 1, 1, 1]))),
                                     max_size=max_crashes))}
 
